@@ -92,15 +92,11 @@ pub fn run_edit_case(dic: &JapaneseDictionary, orig: &str, batches: &[Vec<Ed>], 
         if buf.start_build().is_err() {
             return Err("TooLong".into());
         }
-        for b in batches {
-            let b2 = b.clone();
-            let r = buf.with_editor(move |_, mut ed| {
-                for e in b2.iter() {
-                    ed.replace_own(e.s..e.e, e.w.clone());
-                }
-                Ok(ed)
-            });
-            if r.is_err() {
+        for (bi, b) in batches.iter().enumerate() {
+            // every public entry point of the editor (replace_own / replace_ref / replace_char / replace_char_iter), chosen
+            // deterministically per edit
+            let apis: Vec<u8> = (0..b.len()).map(|i| ((i + bi + orig.len()) % 4) as u8).collect();
+            if !apply_batch_api(&mut buf, b, &apis, false) {
                 return Err("TooLong".into());
             }
         }
@@ -197,14 +193,31 @@ fn run_morphemes(run: &mut Run, first_idx: usize, count: usize) {
         let a = match analyse_with(&w.dic, &warm, &text, mode, subset) {
             Ok(Ok(a)) => a,
             Ok(Err(e)) => { run.bump(&format!("morphc:err:{}", e)); continue; }
-            Err(_) => { run.bump("morphc:panic(C03's business)"); continue; }
+            Err(p) => {
+                // a panic inside the offset accessors AFTER a successful analysis is this property's clause (the usize::MAX
+                // marker of the byte -> code-point table, a slice of the original off a character boundary); anything else is C03's
+                if p.contains("18446744073709551615") || p.contains("char boundary") || p.contains("when slicing") || p.contains("byte index") {
+                    run.fail(idx, "c08:accessor-panic", &format!("an offset accessor of a morpheme of {:?} (mode {:?}, subset {:?}) panics: {}", text, mode, subset.map(|s| s.bits()), p.chars().take(200).collect::<String>()));
+                } else {
+                    run.bump("morphc:panic(C03's business)");
+                }
+                continue;
+            }
         };
         let payload = format!(
             "orig={} cur={} m2o={} nodes={}",
             hex(text.as_bytes()), hex(a.tables.modified.as_bytes()), join(a.tables.m2o.iter(), ","),
             a.morphs.iter().map(|m| format!("{}:{}:{}:{}", m.6 .0, m.6 .1, m.6 .2, m.6 .3)).collect::<Vec<_>>().join(";")
         );
-        let ans = format!("ok cc={}", a.morphs.iter().map(|m| format!("{}:{}", m.3, m.4)).collect::<Vec<_>>().join(","));
+        // every offset accessor of every morpheme + Python's len(m) + the surface (byte route)
+        let ans = format!("ok ms={}", a.morphs.iter().map(|m| match m.4.checked_sub(m.3) {
+            Some(len) => format!("{}:{}:{}:{}:{}:{}", m.0, m.1, m.3, m.4, len, hex_or_e(m.2.as_bytes())),
+            None => "P".to_string(),
+        }).collect::<Vec<_>>().join(","));
+        let widths: std::collections::BTreeSet<usize> = text.chars().map(|c| c.len_utf8()).collect();
+        run.bump(&format!("morphc:char-widths-in-text:{}", widths.iter().map(|w| w.to_string()).collect::<Vec<_>>().join("")));
+        if a.tables.modified.len() == text.len() && a.tables.modified != text { run.bump("morphc:rewritten-same-byte-length"); }
+        if a.tables.modified.chars().count() != text.chars().count() { run.bump("morphc:rewriting-changes-char-count"); }
         run.case(idx, "morphc", &payload, &ans, a.morphs.len() >= 2 && a.tables.modified != text);
         for (i, m) in a.morphs.iter().enumerate() {
             let (b, e, bc, ec) = (m.0, m.1, m.3, m.4);
@@ -215,6 +228,12 @@ fn run_morphemes(run: &mut Run, first_idx: usize, count: usize) {
                     i, text, mode, subset.map(|s| s.bits()), warm.len(), b, e, wb, we, bc, ec));
                 break;
             }
+            // slicing the original by code points gives the surface (what Python's text[m.begin():m.end()] does)
+            let by_cp: String = text.chars().skip(bc).take(ec.saturating_sub(bc)).collect();
+            if by_cp != m.2 || b > e || m.2 != text[b..e] {
+                run.fail(idx, "c08:slice-agree", &format!("morpheme {} of {:?} (mode {:?}): code points {}..{} are {:?}, bytes {}..{} are {:?}, surface() is {:?}", i, text, mode, bc, ec, by_cp, b, e, &text[b.min(e)..e], m.2));
+                break;
+            }
         }
     }
 }
@@ -222,7 +241,10 @@ fn run_morphemes(run: &mut Run, first_idx: usize, count: usize) {
 pub fn run(run: &mut Run) {
     {
         let n = run.opts.count;
-        run_morphemes(run, n, (n / 4).max(100));
+        let nm = (n / 4).max(100);
+        run_morphemes(run, n, nm);
+        run_acc(run, n + nm, nm);
+        run_python(run, n + 2 * nm, (n / 1000).max(2));
     }
     run.rule = "random original strings over mixed 1-4 byte characters x 1..4 successive batches of sorted non-overlapping \
 edits (deletions, insertions, shorter/longer/equal replacements, adjacent edits, at start/middle/end) generated on character \
@@ -288,6 +310,7 @@ boundaries of the current text and leaving it non-empty; non-trivial = at least 
         let (ans, fail) = run_edit_case(&dic, &orig, &batches, None);
         run.bump(&format!("batches:{}", batches.len()));
         run.bump(&format!("outcome:{}", ans.split(' ').next().unwrap_or("")));
+        for (bi, b) in batches.iter().enumerate() { for (i, e) in b.iter().enumerate() { run.bump(&format!("edit-api:{}", api_name(((i + bi + orig.len()) % 4) as u8, e))); } }
         for b in &batches { for e in b { run.bump(if e.w.is_empty() { "edit:delete" } else if e.s == e.e { "edit:insert" } else if e.w.len() > e.e - e.s { "edit:longer" } else if e.w.len() < e.e - e.s { "edit:shorter" } else { "edit:equal" }); } }
         run.case(idx, "edits", &payload, &ans, changes_len);
         if let Some((k, w)) = fail {
@@ -318,4 +341,340 @@ boundaries of the current text and leaving it non-empty; non-trivial = at least 
             }
         }
     }
+}
+
+
+pub fn hex_or_e(b: &[u8]) -> String {
+    if b.is_empty() { "e".to_string() } else { hex(b) }
+}
+
+const ACC_POOL: &[char] = &['a', 'b', '1', '\u{0}', 'é', 'ß', '\u{301}', 'あ', 'い', '宇', '宙', '\u{200d}', '€', 'Ａ', '𠮷', '👍', '𝒳'];
+
+/// the read-only accessor family of `InputBuffer` after `build` (get_original_index, to_orig_byte_idx, to_orig_char_idx,
+/// to_curr_byte_idx, curr_byte_offsets, ch_idx, char_distance, to_orig, orig_slice, curr_slice, orig_slice_c, curr_slice_c, and the
+/// `end_c - begin_c` of Python's `len(m)`): every one called on the real buffer at EVERY index up to two beyond the tables and on
+/// ranges on and off character boundaries, inverted and out of range; each call under its own catch (`P` = panic: index out of
+/// range, debug assertion, slice check). Model: `EditAcc.handleAcc`.
+fn run_acc(run: &mut Run, first_idx: usize, count: usize) {
+    use sudachi::input_text::InputTextIndex;
+    let (_wd, dic) = tiny_dict(&format!("{}-tinyacc", run.prop));
+    for k in 0..count {
+        let idx = first_idx + k;
+        if !run.wants(idx) { continue; }
+        let mut rng = Rng::for_case(run.opts.seed ^ 0xACC, idx);
+        // (original, batches in character indices)
+        let (orig, directed): (String, Option<Vec<Vec<(usize, usize, String)>>>) = match k {
+            0 => ("".into(), Some(vec![])),
+            1 => ("a".into(), Some(vec![vec![(0, 1, "".into())]])),                       // everything deleted: empty rewritten text
+            2 => ("宇宙人".into(), Some(vec![vec![(0, 1, "あい".into())], vec![(3, 4, "".into())]])),
+            3 => ("𠮷".into(), Some(vec![])),                                              // one 4-byte character, no edit
+            4 => ("aé€𠮷".into(), Some(vec![vec![(0, 0, "𝒳".into())], vec![(5, 5, "ß".into())]])), // insertions at both ends, widths 1-4
+            5 => ("…℃".into(), Some(vec![vec![(0, 1, "...".into()), (1, 2, "°C".into())]])),   // same byte length, other character count
+            6 => ("ab".into(), Some(vec![vec![(0, 2, "".into())], vec![]])),
+            _ => {
+                let len = if rng.chance(1, 10) { 1 } else { rng.range(1, 10) };
+                ((0..len).map(|_| *rng.pick(ACC_POOL)).collect(), None)
+            }
+        };
+        let mut cur: Vec<Ch> = {
+            let mut v = vec![];
+            let mut off = 0;
+            for c in orig.chars() { v.push(Ch { c, prov: Some((off, off + c.len_utf8())), del_after: false }); off += c.len_utf8(); }
+            v
+        };
+        let mut batches: Vec<Vec<Ed>> = vec![];
+        match directed {
+            Some(bc) => for b in &bc {
+                batches.push(b.iter().map(|(s, e, w)| Ed { s: byte_off(&cur, *s), e: byte_off(&cur, *e), w: w.clone() }).collect());
+                cur = apply_naive(&cur, b);
+            },
+            None => {
+                let nb = rng.below(4);
+                for _ in 0..nb {
+                    let b = gen_batch(&mut rng, &cur);
+                    let next = apply_naive(&cur, &b);
+                    if next.is_empty() { continue; }
+                    batches.push(b.iter().map(|(s, e, w)| Ed { s: byte_off(&cur, *s), e: byte_off(&cur, *e), w: w.clone() }).collect());
+                    cur = next;
+                }
+            }
+        }
+        // per edit the editor entry point; before some batches a batch whose closure fails (rolled back: the model never sees it)
+        let mut arng = Rng::for_case(run.opts.seed ^ 0xA91, idx);
+        let apis: Vec<Vec<u8>> = batches.iter().map(|b| b.iter().map(|_| arng.below(4) as u8).collect()).collect();
+        let rejected_before: Vec<bool> = batches.iter().map(|_| arng.chance(1, 5)).collect();
+        let built = catch(|| -> Result<(InputBuffer, Vec<String>), String> {
+            let mut buf = InputBuffer::new();
+            buf.reset().push_str(&orig);
+            if buf.start_build().is_err() { return Err("TooLong".into()); }
+            let mut mids = vec![];
+            for (bi, b) in batches.iter().enumerate() {
+                // the buffer as a plugin sees it (state RW)
+                let len = buf.current().len();
+                mids.push(format!("{}/{}", hex_or_e(buf.current().as_bytes()),
+                    join((0..len + 2).map(|i| match catch(|| buf.get_original_index(i)) { Ok(v) => v.to_string(), Err(_) => "P".to_string() }), ",")));
+                if rejected_before[bi] {
+                    // a failing plugin: pushes edits (a deletion of the whole text and an insertion), then reports an error
+                    let junk = vec![Ed { s: 0, e: len, w: "".into() }, Ed { s: len, e: len, w: "zz".into() }];
+                    if apply_batch_api(&mut buf, &junk, &[0, 1], true) { return Err("rejected batch committed".into()); }
+                }
+                if !apply_batch_api(&mut buf, b, &apis[bi], false) { return Err("TooLong".into()); }
+            }
+            buf.build(dic.grammar()).map_err(|_| "Build".to_string())?;
+            Ok((buf, mids))
+        });
+        let (buf, mids) = match built {
+            Ok(Ok(b)) => b,
+            Ok(Err(e)) => { run.bump(&format!("acc:err:{}", e)); if e != "TooLong" { run.fail(idx, "c08:acc:rollback", &format!("{:?}: {}", orig, e)); } continue; }
+            Err(p) => { run.fail(idx, "c08:acc:build-panic", &format!("building the buffer of {:?} panics: {}", orig, p)); continue; }
+        };
+        for (bi, b) in batches.iter().enumerate() {
+            for (i, e) in b.iter().enumerate() { run.bump(&format!("acc:api:{}", api_name(apis[bi][i], e))); }
+            if rejected_before[bi] { run.bump("acc:rolled-back-batch-before-a-batch"); }
+        }
+        let t = buf.verif_tables();
+        let n = t.modified.len();
+        let nc = t.mod_chars.len();
+        // ---- queries ----
+        let bounds: Vec<usize> = t.mod_c2b.clone();
+        let pick_b = |rng: &mut Rng| if rng.chance(1, 2) { *rng.pick(&bounds) } else { rng.below(n + 3) };
+        let mut rb: Vec<(usize, usize)> = vec![(0, n), (0, 0), (n, n)];
+        for _ in 0..7 {
+            let (a, b) = (pick_b(&mut rng), pick_b(&mut rng));
+            rb.push(if rng.chance(4, 5) { (a.min(b), a.max(b)) } else { (a, b) });
+        }
+        let mut rc: Vec<(usize, usize)> = vec![(0, nc), (nc, nc)];
+        for _ in 0..6 {
+            let lim = if rng.chance(3, 4) { nc + 1 } else { nc + 3 };
+            let (a, b) = (rng.below(lim), rng.below(lim));
+            rc.push(if rng.chance(4, 5) { (a.min(b), a.max(b)) } else { (a, b) });
+        }
+        let offs = [0usize, 1, 2, 3, nc, nc + 1, 100_000];
+        let mut cd: Vec<(usize, usize)> = vec![(0, nc), (nc, 1), (nc + 1, 0)];
+        for _ in 0..5 { cd.push((rng.below(nc + 3), *rng.pick(&offs))); }
+        let pairs = |v: &[(usize, usize)]| v.iter().map(|(a, b)| format!("{}:{}", a, b)).collect::<Vec<_>>().join(";");
+        let payload = format!(
+            "orig={} batches={} commit={} rb={} rc={} cd={}",
+            hex(orig.as_bytes()),
+            batches.iter().map(|b| if b.is_empty() { "-".to_string() } else { b.iter().map(|e| format!("{}:{}:{}", e.s, e.e, hex(e.w.as_bytes()))).collect::<Vec<_>>().join(",") }).collect::<Vec<_>>().join(";"),
+            crate::c03::commit_variant(), pairs(&rb), pairs(&rc), pairs(&cd)
+        );
+        // ---- the real accessors, one catch per call ----
+        fn one<T>(f: impl FnOnce() -> T, show: impl Fn(T) -> String) -> String { match catch(f) { Ok(v) => show(v), Err(_) => "P".to_string() } }
+        let num = |v: usize| v.to_string();
+        let sl = |v: String| hex_or_e(v.as_bytes());
+        let goi = join((0..n + 2).map(|i| one(|| buf.get_original_index(i), num)), ",");
+        let chi = join((0..n + 3).map(|i| one(|| buf.ch_idx(i), num)), ",");
+        let tcb = join((0..nc + 3).map(|i| one(|| buf.to_curr_byte_idx(i), num)), ",");
+        let tob = join((0..nc + 3).map(|i| one(|| buf.to_orig_byte_idx(i), num)), ",");
+        let toc = join((0..nc + 3).map(|i| one(|| buf.to_orig_char_idx(i), num)), ",");
+        let cbo = one(|| join(buf.curr_byte_offsets().iter(), ","), |s| s);
+        let cdv = join(cd.iter().map(|&(c, o)| one(|| buf.char_distance(c, o), num)), ",");
+        let to = join(rb.iter().map(|&(a, b)| one(|| buf.to_orig(a..b), |r| format!("{}:{}", r.start, r.end))), ",");
+        let os = join(rb.iter().map(|&(a, b)| one(|| buf.orig_slice(a..b).to_string(), sl)), ",");
+        let cs = join(rb.iter().map(|&(a, b)| one(|| buf.curr_slice(a..b).to_string(), sl)), ",");
+        let osc = join(rc.iter().map(|&(a, b)| one(|| buf.orig_slice_c(a..b).to_string(), sl)), ",");
+        let csc = join(rc.iter().map(|&(a, b)| one(|| buf.curr_slice_c(a..b).to_string(), sl)), ",");
+        // python/src/morpheme.rs: begin() = begin_c(), end() = end_c(), __len__ = end_c() - begin_c()
+        let py = join(rc.iter().map(|&(a, b)| one(|| { let x = buf.to_orig_char_idx(a); let y = buf.to_orig_char_idx(b); (x, y, y - x) }, |(x, y, l)| format!("{}:{}:{}", x, y, l))), ",");
+        let ans = format!("ok mid={} goi={} chi={} tcb={} tob={} toc={} cbo={} cd={} to={} os={} cs={} osc={} csc={} py={}", mids.join(";"), goi, chi, tcb, tob, toc, cbo, cdv, to, os, cs, osc, csc, py);
+        // ---- distribution ----
+        run.bump(&format!("acc:batches:{}", batches.len()));
+        for c in orig.chars() { run.bump(&format!("acc:orig-char-width:{}", c.len_utf8())); }
+        run.bump(if n == 0 { "acc:rewritten-empty" } else if n == orig.len() && t.modified != orig { "acc:rewritten-same-byte-length" } else if t.modified == orig { "acc:rewritten-unchanged" } else { "acc:rewritten-other-length" });
+        for (name, v) in [("goi", &goi), ("toc", &toc), ("os", &os), ("cs", &cs), ("osc", &osc), ("csc", &csc), ("cd", &cdv), ("py", &py)] {
+            let p = v.split(',').filter(|x| *x == "P").count();
+            run.bump_by(&format!("acc:{}:panics", name), p as u64);
+            run.bump_by(&format!("acc:{}:values", name), (v.split(',').count() - p) as u64);
+        }
+        run.case(idx, "acc", &payload, &ans, !batches.is_empty() && n != orig.len());
+        // ---- the property's own oracle on the real accessors (independent of the model) ----
+        let cur_s = &t.modified;
+        let mut fail: Option<(&str, String)> = None;
+        for i in 0..=n {
+            if !cur_s.is_char_boundary(i) { continue; }
+            match catch(|| buf.get_original_index(i)) {
+                Err(p) => { fail = Some(("goi-panic", format!("get_original_index({}) on a character boundary panics: {}", i, p))); break; }
+                Ok(v) => if n > 0 && (v > orig.len() || !orig.is_char_boundary(v)) { fail = Some(("goi-boundary", format!("get_original_index({}) = {} is not a character boundary of the original", i, v))); break; }
+            }
+        }
+        if fail.is_none() {
+            let want: Vec<usize> = cur_s.char_indices().map(|(i, _)| i).collect();
+            match catch(|| buf.curr_byte_offsets().to_vec()) {
+                Err(p) => { fail = Some(("byte-offsets-panic", format!("curr_byte_offsets() panics: {}", p))); }
+                Ok(v) => if v != want { fail = Some(("byte-offsets", format!("curr_byte_offsets() = {:?} but the characters begin at {:?}", v, want))); }
+            }
+        }
+        if fail.is_none() && n > 0 {
+            for i in 0..=nc {
+                match catch(|| (buf.to_curr_byte_idx(i), buf.ch_idx(buf.to_curr_byte_idx(i)))) {
+                    Err(p) => { fail = Some(("chidx-panic", format!("ch_idx(to_curr_byte_idx({})) panics: {}", i, p))); break; }
+                    Ok((_, c)) => if c != i { fail = Some(("chidx-roundtrip", format!("ch_idx(to_curr_byte_idx({})) = {}", i, c))); break; }
+                }
+                match catch(|| (buf.to_orig_byte_idx(i), buf.to_orig_char_idx(i))) {
+                    Err(p) => { fail = Some(("charidx-panic", format!("to_orig_char_idx({}) panics: {}", i, p))); break; }
+                    Ok((b, c)) => if b > orig.len() || !orig.is_char_boundary(b) || orig[..b].chars().count() != c {
+                        fail = Some(("charidx", format!("character {}: to_orig_byte_idx = {}, to_orig_char_idx = {}", i, b, c))); break;
+                    }
+                }
+            }
+        }
+        if fail.is_none() && n > 0 {
+            for &(a, b) in rc.iter().filter(|(a, b)| a <= b && *b <= nc) {
+                let r = catch(|| (buf.orig_slice_c(a..b).to_string(), buf.curr_slice_c(a..b).to_string(), buf.to_orig_char_idx(a), buf.to_orig_char_idx(b),
+                                  buf.orig_slice(buf.to_curr_byte_idx(a)..buf.to_curr_byte_idx(b)).to_string()));
+                match r {
+                    Err(p) => { fail = Some(("slice-panic", format!("a slice accessor panics for characters {}..{}: {}", a, b, p))); break; }
+                    Ok((o, c, x, y, o2)) => {
+                        let by_cp: String = orig.chars().skip(x).take(y.saturating_sub(x)).collect();
+                        if o != by_cp || o != o2 || o.chars().count() != y.wrapping_sub(x) {
+                            fail = Some(("slice-agree", format!("characters {}..{}: orig_slice_c = {:?}, orig_slice = {:?}, original code points {}..{} = {:?}", a, b, o, o2, x, y, by_cp))); break;
+                        }
+                        if c.chars().count() != b - a { fail = Some(("curr-slice-c", format!("curr_slice_c({}..{}) = {:?}", a, b, c))); break; }
+                    }
+                }
+            }
+        }
+        if fail.is_none() {
+            for &(c, o) in cd.iter().filter(|(c, _)| *c <= nc) {
+                match catch(|| buf.char_distance(c, o)) {
+                    Err(p) => { fail = Some(("char-distance-panic", format!("char_distance({}, {}) panics inside the text: {}", c, o, p))); break; }
+                    Ok(d) => if d != o.min(nc - c) { fail = Some(("char-distance", format!("char_distance({}, {}) = {} in a text of {} characters", c, o, d, nc))); break; }
+                }
+            }
+        }
+        if let Some((k, w)) = fail {
+            run.fail(idx, &format!("c08:acc:{}", k), &format!("{:?} after {} batches ({:?}): {}", orig, batches.len(), cur_s, w));
+        }
+    }
+}
+
+/// Python: `Morpheme.begin()/end()/len(m)` (python/src/morpheme.rs) and the pre-tokenizer's code-point slices
+/// (python/src/pretokenizer.rs, `__call__` driven directly with a stand-in for tokenizers.NormalizedString) on the built
+/// extension, against the in-process library and the model (`C08 pyoff`: EditAcc.pyOffsets on the dumped tables).
+fn run_python(run: &mut Run, first_idx: usize, count: usize) {
+    use crate::c01::{analyse_with, world_for};
+    use crate::world::{gen_text, WorldOpts};
+    let root = std::env::var("VERIF_ROOT").unwrap_or_else(|_| "/verif".to_string());
+    let pkg = format!("{}/.build/py/pkg", root);
+    if !std::path::Path::new(&pkg).exists() {
+        if (first_idx..first_idx + count).any(|i| run.wants(i)) { run.bump("python:extension-not-built"); }
+        return;
+    }
+    let opts = WorldOpts::default();
+    for k in 0..count {
+        let idx = first_idx + k;
+        if !run.wants(idx) { continue; }
+        let w = match world_for(run.opts.seed ^ 0xC08F, &format!("{}-py", run.prop), k, &opts) { Ok(w) => w, Err(_) => { run.bump("python:world-error"); continue; } };
+        let mut rng = Rng::for_case(run.opts.seed ^ 0xC08F, idx);
+        let base = w.cfg.replacen("{", &format!("{{\"systemDict\":\"system.dic\",\"userDict\":[{}],", (0..w.user_bins.len()).map(|i| format!("\"user{}.dic\"", i)).collect::<Vec<_>>().join(",")), 1);
+        std::fs::write(w.wd.path.join("system.dic"), &w.system_bin).unwrap();
+        for (i, u) in w.user_bins.iter().enumerate() { std::fs::write(w.wd.path.join(format!("user{}.dic", i)), u).unwrap(); }
+        w.wd.write("cfg_c08py.json", &base);
+        let mut meta = vec![];
+        let mut cases = vec![];
+        for j in 0..24 {
+            let text = match j { 0 => "㍿(かぶ)12,345ァアー…℃".to_string(), 1 => "".to_string(), 2 => "👍🏻e\u{301}ＡＢＣ𠮷".to_string(), _ => gen_text(&mut rng, &w, 12) };
+            let mode = mode_of(rng.below(3));
+            cases.push(serde_json::json!({"mode": format!("{:?}", mode), "text": text}));
+            meta.push((mode, text));
+        }
+        let script = serde_json::json!({"pkg": pkg, "resource_dir": w.wd.path, "cfg": w.wd.path.join("cfg_c08py.json"), "cases": cases});
+        let spath = w.wd.path.join("c08py_script.json");
+        std::fs::write(&spath, serde_json::to_string(&script).unwrap()).unwrap();
+        let outp = match std::process::Command::new("python3").arg(format!("{}/pyharness/run_c08.py", root)).arg(&spath).output() {
+            Ok(o) => o, Err(e) => { run.bump(&format!("python:spawn-error:{}", e)); continue; }
+        };
+        let got: Vec<serde_json::Value> = serde_json::from_slice(&outp.stdout).unwrap_or_default();
+        if got.len() != meta.len() {
+            run.fail(idx, "c08:py:crash", &format!("the Python run ended early ({} of {} answers, status {:?}): {}", got.len(), meta.len(), outp.status.code(),
+                String::from_utf8_lossy(&outp.stderr).chars().rev().take(300).collect::<String>().chars().rev().collect::<String>()));
+            continue;
+        }
+        let mut lines = vec![];
+        for (j, (mode, text)) in meta.iter().enumerate() {
+            let a = match analyse_with(&w.dic, &[], text, *mode, None) { Ok(Ok(a)) => a, _ => { run.bump("python:library-error-skipped"); continue; } };
+            let g = &got[j];
+            run.bump(&format!("python:texts:mode-{:?}", mode));
+            if g["ok"] != serde_json::Value::Bool(true) {
+                run.fail(idx, "c08:py:raise", &format!("tokenize({:?}) raised {} {} although the library analyses it", text, g["exc"], g["msg"]));
+                continue;
+            }
+            let ms = g["ms"].as_array().cloned().unwrap_or_default();
+            lines.push(format!("orig={} cur={} m2o={} nodes={} => ok py={}",
+                hex(text.as_bytes()), hex(a.tables.modified.as_bytes()), join(a.tables.m2o.iter(), ","),
+                a.morphs.iter().map(|m| format!("{}:{}:{}:{}", m.6 .0, m.6 .1, m.6 .2, m.6 .3)).collect::<Vec<_>>().join(";"),
+                ms.iter().map(|m| format!("{}:{}:{}", m[0], m[1], m[2])).collect::<Vec<_>>().join(",")));
+            run.bump_by("python:morphemes", ms.len() as u64);
+            if ms.len() == a.morphs.len() {
+                let bad = ms.iter().zip(a.morphs.iter()).find(|(p, m)| m.0 <= text.len() && m.1 <= text.len() && text.is_char_boundary(m.0) && text.is_char_boundary(m.1)
+                    && (p[0].as_u64() != Some(text[..m.0].chars().count() as u64) || p[1].as_u64() != Some(text[..m.1].chars().count() as u64) || p[3] != p[4]));
+                if let Some((p, m)) = bad {
+                    run.fail(idx, "c08:py:codepoints", &format!("Python morpheme {} of {:?} (mode {:?}): bytes {}..{} of the text are code points {}..{}, and text[begin():end()] must be raw_surface()", p, text, mode, m.0, m.1, text[..m.0].chars().count(), text[..m.1].chars().count()));
+                    continue;
+                }
+            }
+            let want: Vec<serde_json::Value> = a.morphs.iter().map(|m| serde_json::json!([m.3, m.4, m.2.chars().count(), m.2, m.2])).collect();
+            if serde_json::Value::Array(ms.clone()) != serde_json::Value::Array(want.clone()) {
+                run.fail(idx, "c08:py:offsets", &format!("Python [begin(), end(), len(m), raw_surface(), text[begin():end()]] of {:?} (mode {:?}) = {} but the library's morphemes give {}",
+                    text, mode, g["ms"].to_string().chars().take(400).collect::<String>(), serde_json::Value::Array(want).to_string().chars().take(400).collect::<String>()));
+                continue;
+            }
+            match g.get("pre").and_then(|p| p.as_array()) {
+                None => { run.fail(idx, "c08:py:pretok", &format!("the pre-tokenizer call on {:?} raised: {}", text, g["pre_exc"])); }
+                Some(pre) => {
+                    // independent of any analysis: the code-point slices must tile the text
+                    let cat: String = pre.iter().map(|x| x.as_str().unwrap_or("\u{0}?")).collect();
+                    if cat != *text {
+                        run.fail(idx, "c08:py:pretok-tiling", &format!("pre-tokenizer slices of {:?} (mode {:?}) = {} do not concatenate to the text", text, mode,
+                            serde_json::Value::Array(pre.clone()).to_string().chars().take(300).collect::<String>()));
+                        continue;
+                    }
+                    // `Dictionary.pre_tokenizer()` without handler analyses with the fields its projection needs: none for the surface
+                    // projection (`set_subset(empty)`), so its tokens are those of THAT analysis (a path-rewrite plugin that looks at
+                    // part-of-speech ids joins differently than under `tokenize`, which loads every field)
+                    let a0 = match analyse_with(&w.dic, &[], text, *mode, Some(sudachi::dic::subset::InfoSubset::empty())) { Ok(Ok(a)) => a, _ => { run.bump("python:library-error-skipped"); continue; } };
+                    let want: Vec<serde_json::Value> = a0.morphs.iter().map(|m| serde_json::json!(m.2)).collect();
+                    if want.len() != a.morphs.len() { run.bump("python:pretokenizer-tokens-differ-from-tokenize()-tokens(field-subset)"); }
+                    if *pre != want {
+                        run.fail(idx, "c08:py:pretok", &format!("pre-tokenizer slices of {:?} (mode {:?}) = {} but the surfaces are {}", text, mode,
+                            serde_json::Value::Array(pre.clone()).to_string().chars().take(300).collect::<String>(), serde_json::Value::Array(want).to_string().chars().take(300).collect::<String>()));
+                    } else { run.bump("python:pretokenizer-texts-ok"); }
+                }
+            }
+        }
+        // one model line per Python run (all texts of the run on one line would be unreadable: the first text with >= 2 morphemes
+        // and a rewritten text stands for the run in the case list, the others are compared here through extra lines)
+        for (j, l) in lines.iter().enumerate() {
+            let (payload, ans) = l.split_once(" => ").unwrap();
+            let _ = j; run.case(idx, "pyoff", payload, ans, true);
+        }
+        run.bump("python:runs");
+    }
+}
+
+
+/// one batch through the public editor API; `apis[i]` selects the entry point of edit i (0 replace_own, 1 replace_ref,
+/// 2 replace_char when the replacement is one character, 3 replace_char_iter when it is not empty); `reject` makes the closure
+/// return an error AFTER pushing its edits (`with_editor` must roll them back). Returns whether the batch was committed.
+pub fn apply_batch_api(buf: &mut InputBuffer, b: &[Ed], apis: &[u8], reject: bool) -> bool {
+    let r = buf.with_editor(|_, mut ed| {
+        for (i, e) in b.iter().enumerate() {
+            let mut cs = e.w.chars();
+            let first = cs.next();
+            match (apis.get(i).copied().unwrap_or(0), first) {
+                (1, _) => ed.replace_ref(e.s..e.e, &e.w),
+                (2, Some(c)) if e.w.chars().count() == 1 => ed.replace_char(e.s..e.e, c),
+                (3, Some(c)) => ed.replace_char_iter(e.s..e.e, c, cs),
+                _ => ed.replace_own(e.s..e.e, e.w.clone()),
+            }
+        }
+        if reject { Err(sudachi::error::SudachiError::InvalidRange(0, 0)) } else { Ok(ed) }
+    });
+    r.is_ok()
+}
+
+pub fn api_name(a: u8, e: &Ed) -> &'static str {
+    let n = e.w.chars().count();
+    match a { 1 => "replace_ref", 2 if n == 1 => "replace_char", 3 if n >= 2 => "replace_char_iter(string)", 3 if n == 1 => "replace_char_iter(char)", _ => "replace_own" }
 }
